@@ -28,3 +28,17 @@ TEXT["C11"] = {
     "note": "trusts the harness value model and std's DefaultHasher being deterministic",
     "technique": "reference-model monitor over history pairs incl. Bit Machine output after frame reuse",
 }
+TEXT["C18"] = {
+    "level": ("Exhaustive enumeration of all DAG shapes up to 7 (8) nodes under three sharing policies, each compared with a naive recursive reference and with "
+              "direct structural statements; random larger shapes on top. Decides the property for the enumerated shapes."),
+    "design_ref": "DESIGN.md section 5, C18",
+    "note": "trusts the naive reference walker in harness/src/c18.rs",
+    "technique": "reference-model monitor over an exhaustive shape enumeration through the public DagLike trait",
+}
+TEXT["C19"] = {
+    "level": ("Exhaustive over deficits around every region edge for a family of boundary-straddling stacks, random elsewhere up to the consensus maximum; "
+              "oracle is an independent compact-size budget calculator plus the library's own predicate on the padded stack."),
+    "design_ref": "DESIGN.md section 5, C19",
+    "note": "trusts the harness's compact-size arithmetic",
+    "technique": "reference-model monitor (budget calculator) with boundary enumeration",
+}
